@@ -238,6 +238,30 @@ def main():
                 elif not c[6]:
                     k = "%s: %s" % (c[0], "rejected" if r["rc"] != 0 else "accepted with identical image")
                     outcomes[k] = outcomes.get(k, 0) + 1
+        # chunking at the system call level: every read() of the (compressed) input returns at most N bytes (environment controller); the first
+        # read is then shorter than the compressor magic / the tar header the format detection looks at
+        from vlib import envrun
+        TE = build.build_tools(build.variant("envwrap"), os.path.join(sd, "envbin"), tools=["tar2sqfs"])
+        n_cap = 0
+        for name in ("a1-small", "a2-40k"):
+            data0, shas0 = REF[name]
+            for codec in [None] + cods:
+                z = data0 if codec is None else codecs.compress(codec, data0)
+                for capn in ((1, 2, 3, 5, 6, 511) if name == "a1-small" else (1, 5)):
+                    d = tempfile.mkdtemp(dir=sd)
+                    img = os.path.join(d, "o.sqfs")
+                    zf = os.path.join(d, "in.bin")
+                    open(zf, "wb").write(z)
+                    r, _ = envrun.run_env([TE["tar2sqfs"], "-q", "-c", "gzip", "-b", str(bss[0]), "-j", "2", img], plan="cap:read=%d" % capn, stdin_file=zf, want_log=False, timeout=300)
+                    n_cap += 1
+                    n_eval += 1
+                    sh = sha_file(img) if os.path.exists(img) else None
+                    if r.crashed or r.rc != 0 or sh != shas0[bss[0]]:
+                        cr.violation("C15|read-cap|%s|%s" % (codec or "plain", "crash" if r.crashed else ("refused" if r.rc != 0 else "different-image")),
+                                     "archive %s, %s, every read() returns at most %d byte(s): rc=%d %s" % (name, codec or "uncompressed", capn, r.rc, r.err.decode("latin1")[-300:].strip()),
+                                     files={"input.bin": z, "case.json": json.dumps(dict(archive=name, what="%s read cap %d" % (codec, capn), bs=bss[0], chunk=None))})
+                    shutil.rmtree(d, ignore_errors=True)
+        cr.coverage["read_cap_runs"] = n_cap
         # oracle B: sqfs2tar -c X expanded by the reference decoder == plain sqfs2tar output
         nb = 0
         imgs = []
